@@ -175,6 +175,30 @@ func (c *Conn) Write(p []byte) (int, error) {
 	return len(p), nil
 }
 
+// ReadFrom makes the scripted connection an io.ReaderFrom, like *net.TCPConn (sendfile / splice):
+// transports take a fast path for body streams when the socket offers it. The bytes go to the same
+// output, in call order, through Write.
+func (c *Conn) ReadFrom(r io.Reader) (int64, error) {
+	buf := make([]byte, 32*1024)
+	var total int64
+	for {
+		n, err := r.Read(buf)
+		if n > 0 {
+			w, werr := c.Write(buf[:n])
+			total += int64(w)
+			if werr != nil {
+				return total, werr
+			}
+		}
+		if err == io.EOF {
+			return total, nil
+		}
+		if err != nil {
+			return total, err
+		}
+	}
+}
+
 // Output returns everything written so far.
 func (c *Conn) Output() []byte {
 	c.mu.Lock()
